@@ -13,7 +13,8 @@ RULE = ("Connected oriented triangulated surfaces built by the harness: grids, c
         "closed polyhedra (optionally midpoint-subdivided), connected sums with tori / polyhedra (genus 0-3; sub-check cut_large "
         "subdivides every base to 300-1500 faces, cut_small stays <= ~200), then random face "
         "deletions (new border loops), edge flips, 1-3 splits, triangle edge splits; largest face component kept; optional jitter "
-        "(un-jittered regular grids keep exact shortest-path ties), optional roof-like folds (creases for the feature detector), "
+        "(un-jittered regular grids keep exact shortest-path ties; 1 small case in 12 is a 'tie-trap' torus lattice with one exact "
+        "unequal-sided parallelogram between three singular vertices, where paths computed from different sources tie), optional roof-like folds (creases for the feature detector), "
         "vertex/face relabelling; coincident positions (the vertex opposite an interior edge copied onto the other opposite "
         "vertex for 1-4 edges = adjacent faces with one barycentre, or the whole mesh collapsed onto 1-4 positions; the feature "
         "detector is dropped when a triangle has (near) zero area). Singularity sets: empty, one, two adjacent, k random, border only, mixed, a vertex with all its "
@@ -227,6 +228,24 @@ def _pick(draw, n):
     return draw(st.integers(0, 10 ** 6)) % n
 
 
+def tie_trap(nu, nw, pi, pj, H):
+    """nu x nw torus grid with sheared-lattice coordinates i*u + j*w (the wrap-around edges are long and never used). The four
+    vertices (pi..pi+1, pj..pj+1) form an exact parallelogram with unequal sides, split by its edge (pi+1,pj)-(pi,pj+1): the two
+    ways round it from p=(pi,pj) to q=(pi+1,pj+1) have exactly the same length, and Dijkstra started from p's side and from q
+    take different ones. Vertices off row pj (i<=pi) / column pi (j<=pj) / the parallelogram are lifted by H, so that shortest
+    paths from that row and column to q run through p."""
+    u = np.array([2.0, 0.0, 0.0]); w = np.array([-0.5, 1.0, 0.0])
+    idx = lambda i, j: (j % nw) * nu + (i % nu)
+    valley = lambda i, j: (j == pj and i <= pi) or (i == pi and j <= pj) or (i in (pi, pi + 1) and j in (pj, pj + 1))
+    V = [(i * u + j * w + np.array([0.0, 0.0, 0.0 if valley(i, j) else H])).tolist() for j in range(nw) for i in range(nu)]
+    F = []
+    for j in range(nw):
+        for i in range(nu):
+            a, b, c, d = idx(i, j), idx(i + 1, j), idx(i + 1, j + 1), idx(i, j + 1)
+            F.append([a, b, d]); F.append([b, c, d])
+    return V, F, idx
+
+
 RESULTS = ["output_mesh", "cut_edges", "cut_graph", "cut_adj", "ref_vertex"]
 
 
@@ -241,6 +260,17 @@ def read_order(draw):
 @st.composite
 def cut_case(draw, big=False, twice=False):
     V, F, tags = draw(trisurface(big=big))
+    trap = None
+    if not big and draw(st.integers(0, 9)) == 0:
+        # exact shortest-path ties between paths computed from different sources (see tie_trap); the two outer singular
+        # vertices are mostly placed >= 2 columns / >= 4 rows away, where both of their paths to q are spanning-tree edges
+        nu, nw = draw(st.integers(5, 7)), draw(st.integers(7, 9))
+        pi, pj = draw(st.integers(2, nu - 2)), draw(st.integers(4, nw - 2))
+        V, F, idx = tie_trap(nu, nw, pi, pj, draw(st.sampled_from([1.0, 2.0])))
+        far = draw(st.integers(0, 4)) > 0
+        trap = [idx(pi - draw(st.integers(2 if far else 1, pi)), pj), idx(pi + 1, pj + 1),
+                idx(pi, pj - draw(st.integers(4 if far else 1, pj)))]
+        tags = ["base=tie-trap"]
     ref = SurfRef(len(V), F)
     nV = len(V)
     bv = sorted(ref.border_vertices())
@@ -268,9 +298,14 @@ def cut_case(draw, big=False, twice=False):
         S = [c] + sorted(ref.v2v[c])
     elif mode == "all":
         S = list(range(nV)) if nV <= 40 else [_pick(draw, nV) for _ in range(12)]
+    if trap is not None:
+        mode = "tie-trap"
+        S = trap + ([_pick(draw, nV)] if draw(st.integers(0, 5)) == 0 else [])
     # distinct, in a drawn order (the order is an input of the spanning-tree construction)
     S = list(dict.fromkeys(int(s) for s in S))
-    if len(S) > 1:
+    if trap is not None and len(S) == 3 and draw(st.booleans()):
+        S = S[::-1] if draw(st.booleans()) else S            # q stays between the two others
+    elif len(S) > 1:
         if len(S) <= 12:
             S = list(draw(st.permutations(S)))
         else:
@@ -279,6 +314,8 @@ def cut_case(draw, big=False, twice=False):
     S = list(dict.fromkeys(S))
     # coincident positions: the property is topological, the geometry only weights the paths
     degen = draw(st.sampled_from(["no", "no", "no", "no", "dup-opposite", "dup-opposite", "collapse"]))
+    if trap is not None:
+        degen = "no"
     if degen == "dup-opposite":
         inner = sorted(e for e in ref.uedges if not ref.edge_on_border(*e))
         done = 0
@@ -315,6 +352,8 @@ def cut_case(draw, big=False, twice=False):
             V = [list(COLLAPSE_POSITIONS[(col[v] + sh) % len(COLLAPSE_POSITIONS)]) for v in range(nV)]
             tags = tags + [f"collapse={1 + max(col.values())}"]
     feat = draw(st.sampled_from(["detect", "none", "none", "detect", "detect+hard", "only_border"]))
+    if trap is not None and feat != "only_border" and draw(st.integers(0, 3)) > 0:
+        feat = "none"
     hard = []
     if feat == "detect+hard":
         inner = sorted(e for e in ref.uedges if not ref.edge_on_border(*e))
@@ -329,6 +368,8 @@ def cut_case(draw, big=False, twice=False):
             tags = tags + ["degenerate->no-features"]
     # uniform scale (the property is topological: nothing may depend on the unit of length)
     sc = draw(st.sampled_from([1.0, 1.0, 1.0, 1.0, 1e-3, 1e-6, 1e3, 1e6]))
+    if trap is not None:
+        sc = 1.0                   # the ties must stay exact
     if sc != 1.0:
         V = (np.array(V, dtype=float) * sc).tolist()
         tags = tags + [f"scale={sc:g}"]
@@ -676,6 +717,8 @@ def fn(case, ctx):
         ctx.label("sphere:two-adjacent(14b)")
     if "jitter" not in case["tags"]:
         ctx.label("exact-ties-possible")
+    if "base=tie-trap" in case["tags"]:
+        ctx.label("tie-trap")
     # coincident positions (measured on the realised case)
     A = np.array(V, dtype=float)
     if len(set(map(tuple, A.tolist()))) < len(V):
